@@ -55,3 +55,26 @@ Theorem C11_exact_and_leftover : forall rp fl count a e suffix,
     end.
 Proof. exact parse_layout. Qed.
 Print Assumptions C11_exact_and_leftover.
+
+(* ---- truncation: EVERY strict prefix of EVERY laid-out authenticator data is rejected ---- *)
+From PW Require Import Proofs.CborPrefix Proofs.AuthDataTrunc.
+
+(* the CBOR encoding is prefix-free for the decoder: no strict prefix of the encoding of a well-formed value
+   decodes successfully, with any fuel (no bound on size or nesting) *)
+Theorem C11_cbor_prefix_free : forall v fuel q t, wf v -> t <> [] -> q ++ t = cbor_enc v ->
+  match cbor_dec fuel q with DOk _ _ => False | _ => True end.
+Proof. intros v fuel q t W Ht H. exact (cbor_trunc v fuel W q t Ht H). Qed.
+Print Assumptions C11_cbor_prefix_free.
+
+(* cut the laid-out bytes anywhere (inside the header, the AAGUID, the length bytes, the credential id, the
+   COSE key or the extensions): the parser raises InvalidAuthenticatorDataStructure or InvalidCBORData
+   (Unmodelled can only arise for CBOR nested deeper than the modelled 256 levels) - never a record *)
+Theorem C11_truncated : forall rp fl count a e q t,
+  len rp = 32 -> 0 <= count < 2 ^ 32 ->
+  flag fl 6 = is_some a -> flag fl 7 = is_some e ->
+  att_ok a (ext_bytes e) -> ext_ok e ->
+  t <> [] -> q ++ t = authdata_layout rp fl count a e ->
+  parse_auth_data q = Err (Lib InvalidAuthenticatorDataStructure) \/
+  parse_auth_data q = Err (Lib InvalidCBORData) \/ parse_auth_data q = Err Unmodelled.
+Proof. exact parse_truncated. Qed.
+Print Assumptions C11_truncated.
